@@ -1,5 +1,6 @@
 import Rie.Proofs.Sys
 import Rie.Proofs.SysInv
+import Rie.Proofs.SysIds
 import Rie.Proofs.Payload
 import Rie.Props.FrontEndTable
 
@@ -39,6 +40,32 @@ theorem C01_fresh_id (s : State) (c size : Nat) (h : String) (hi : s.inited = tr
     (applyOp s (.invoke c size h)).resv = some { k := s.nextK, caller := c } ∧
     (applyOp s (.invoke c size h)).nextK = s.nextK + 1 := by
   simp [applyOp, startServerInit, hi, hr]
+
+/-- **A fresh request id — whole runs.** From any state in which no invocation number is held (a freshly started
+    emulator), after ANY sequence of ops — invocations, API calls in any order, exits, timeouts, resets,
+    shutdowns, restores, every timer firing — under any scheduler choices: every invocation number the
+    emulator still holds anywhere (`known`: the reservation's, those of queued handler requests, the running
+    handler's, and the one in the renderer, i.e. the event a slow runtime may still fetch or answer) is below
+    the counter. So the number the next admitted invocation gets (`C01_fresh_id`: the counter's value) differs
+    from every one of them: a late response, error or poll under an old id can never be taken for the new
+    invocation's. Invariant `Rie.Sys.KInv`, `Rie/Proofs/SysIds.lean` (one frame lemma per model function:
+    "the counter stands and nothing new is held"). -/
+theorem C01_fresh_id_run (s0 : State) (h0 : known s0 = []) (ops : List (Nat × Op)) :
+    let s := (run s0 [] ops).1
+    ∀ k, k ∈ known s → k < s.nextK ∧ k ≠ s.nextK := by
+  intro s k hk
+  have i0 : KInv s0 := by intro k hk; rw [h0] at hk; cases hk
+  have h := kinv_run s0 [] ops i0 k hk
+  exact ⟨h, Nat.ne_of_lt h⟩
+
+-- non-vacuity: while an invocation is in flight its number is held in three places; after it has completed the
+-- renderer still holds it (the runtime is parked on the old event's successor) when the next invocation is
+-- admitted with the counter's value
+example :
+    let ops : List (Nat × Op) := [(0, .invoke 0 1 "a"), (0, .rtNext), (0, .rtResponse (some 1) 1 "x" false), (0, .rtNext)]
+    known (run {} [] (ops.take 2)).1 = [1, 1, 1] ∧
+    known (run {} [] ops).1 = [1] ∧ (run {} [] ops).1.nextK = 2 ∧ (run {} [] ops).1.resv = none ∧ known ({} : State) = [] := by
+  decide +kernel
 
 /-- **To the caller of that invocation and to nobody else.** A body is written only by `sendReply`,
     and `sendReply` writes to the writer attached to the reservation whose id it was given: every
